@@ -127,6 +127,17 @@ func (w *IntegWorld) Plan(id string) *ExecPlan {
 	return defaultPlan
 }
 
+// PlanFor: the behaviour of command `id` when it is executed on behalf of execution `who` (a stage
+// name); a plan keyed "id@who" lets the same command of a shared task behave differently per stage.
+func (w *IntegWorld) PlanFor(id, who string) *ExecPlan {
+	if who != "" {
+		if p, ok := w.Plans[id+"@"+who]; ok {
+			return p
+		}
+	}
+	return w.Plan(id)
+}
+
 func (w *IntegWorld) Summary() string {
 	var parts []string
 	for _, t := range w.Tasks {
@@ -297,12 +308,15 @@ func planExit(p *ExecPlan) int {
 }
 
 // ModelTask computes what a single execution of t must look like.
-func ModelTask(w *IntegWorld, t *TaskSpec) *TaskExpect {
+func ModelTask(w *IntegWorld, t *TaskSpec) *TaskExpect { return ModelTaskFor(w, t, "") }
+
+// ModelTaskFor: the execution of t on behalf of `who` (per-stage plans of a shared task).
+func ModelTaskFor(w *IntegWorld, t *TaskSpec, who string) *TaskExpect {
 	x := &TaskExpect{OptionalFrom: -1}
 	if t.Cond {
 		id := execID(t.Name, "cond", 0, "")
 		x.Seq = append(x.Seq, id)
-		if planExit(w.Plan(id)) != 0 {
+		if planExit(w.PlanFor(id, who)) != 0 {
 			x.Skipped = true
 			return x
 		}
@@ -310,7 +324,7 @@ func ModelTask(w *IntegWorld, t *TaskSpec) *TaskExpect {
 	for i := 0; i < t.NBefore; i++ {
 		id := execID(t.Name, "before", i, "")
 		x.Seq = append(x.Seq, id)
-		if planExit(w.Plan(id)) != 0 {
+		if planExit(w.PlanFor(id, who)) != 0 {
 			x.Failed = true
 			return x
 		}
@@ -327,7 +341,7 @@ func ModelTask(w *IntegWorld, t *TaskSpec) *TaskExpect {
 		for i := 0; i < t.NCmd; i++ {
 			id := execID(t.Name, "cmd", i, v)
 			x.Seq = append(x.Seq, id)
-			p := w.Plan(id)
+			p := w.PlanFor(id, who)
 			x.Stdout = append(x.Stdout, stdoutOf(p)...)
 			if e := planExit(p); e != 0 && !t.Allow {
 				x.Failed = true
@@ -341,7 +355,7 @@ func ModelTask(w *IntegWorld, t *TaskSpec) *TaskExpect {
 	for i := 0; i < t.NAfter; i++ {
 		id := execID(t.Name, "after", i, "")
 		x.Seq = append(x.Seq, id)
-		if planExit(w.Plan(id)) != 0 && x.OptionalFrom < 0 {
+		if planExit(w.PlanFor(id, who)) != 0 && x.OptionalFrom < 0 {
 			x.OptionalFrom = len(x.Seq)
 		}
 	}
